@@ -29,6 +29,10 @@ def known_skip(feats, syn):
 KNOWN_CLASSES = {
     # UPER strips trailing 0 bits of every BIT STRING, also of those without a NamedBitList
     "bitstring.trailing-zero-bits.uper": lambda feats, syn: syn == "uper" and "bits.trailing0" in feats,
+    # PER constraint tables keep bounds in a C long: ranges reaching above 2^63-1 cannot be encoded
+    "int.ub-above-int64.uper": lambda feats, syn: syn == "uper" and "int.ub>int64" in feats,
+    # no PER character map is generated for a permitted alphabet with holes that reaches above 255
+    "from.sparse-above-255.uper": lambda feats, syn: syn == "uper" and "from.sparse>255" in feats,
     # SET has no OER/UPER codec at all
     "set.no-oer-uper": lambda feats, syn: syn in ("oer", "uper") and "SET" in feats,
 }
